@@ -52,6 +52,35 @@ def key_matches(pattern, key):
     return pattern == key
 
 
+_LOCPATH = None
+def harness_env():
+    """environment of every harness process: UTC, C locale, and a LOCPATH holding clones of C.utf8 under Turkish, Azeri and
+    Lithuanian NAMES -- wcsfc_s branches on the locale's name, and no such locale is installed (harness/props_extra.c, XLOC)"""
+    global _LOCPATH
+    if _LOCPATH is None:
+        _LOCPATH = ""
+        src = "/usr/lib/locale/C.utf8"
+        d = os.path.join(VERIF, "build", "locales")
+        try:
+            if os.path.isdir(src):
+                for name in ("tr_TR.UTF-8", "lt_LT.UTF-8", "az_AZ.UTF-8"):
+                    t = os.path.join(d, name)
+                    if not os.path.isdir(t):
+                        tmp = t + ".tmp%d" % os.getpid()
+                        shutil.copytree(src, tmp)
+                        try:
+                            os.rename(tmp, t)
+                        except OSError:
+                            shutil.rmtree(tmp, ignore_errors=True)
+                _LOCPATH = d
+        except OSError:
+            _LOCPATH = ""
+    env = dict(os.environ, TZ="UTC", LC_ALL="C")
+    if _LOCPATH:
+        env["LOCPATH"] = _LOCPATH
+    return env
+
+
 class Campaign:
     """one harness run of a cs module against one library config"""
 
@@ -72,7 +101,7 @@ class Campaign:
                "--workers", str(min(16, os.cpu_count() or 4))] + self.extra
         if self.cases is not None:
             cmd += ["--cases", str(self.cases)]
-        env = dict(os.environ, TZ="UTC", LC_ALL="C")
+        env = harness_env()
         r = subprocess.run(cmd, capture_output=True, text=True, errors="replace", env=env)
         self.stderr = r.stderr
         if r.returncode != 0 or not os.path.exists(os.path.join(od, "summary.json")):
@@ -114,7 +143,7 @@ def write_case(path, module, phase, choices, key="", detail="", case="", kase=""
 
 def replay_case(harness, module, path, libcfg="plain"):
     """returns (code, key, text). code 0 ok, 1 violation"""
-    env = dict(os.environ, TZ="UTC", LC_ALL="C")
+    env = harness_env()
     r = subprocess.run([harness, "--module", module, "--libcfg", libcfg, "--replay", path], capture_output=True, text=True, errors="replace", env=env)
     key = None
     for l in r.stdout.splitlines():
@@ -124,7 +153,7 @@ def replay_case(harness, module, path, libcfg="plain"):
 
 
 def shrink_case(harness, module, path, outpath, libcfg="plain"):
-    env = dict(os.environ, TZ="UTC", LC_ALL="C")
+    env = harness_env()
     r = subprocess.run([harness, "--module", module, "--libcfg", libcfg, "--shrink", path, "--shrink-out", outpath],
                        capture_output=True, text=True, errors="replace", env=env)
     return r.returncode == 0 and os.path.exists(outpath)
